@@ -77,7 +77,38 @@ def by_class(only_library=True):
         res.setdefault(cls, [])
         if data not in res[cls]:
             res[cls].append(data)
+    if only_library:
+        _add_containers(res)
     return res
+
+
+def _add_containers(res):
+    """every item class that has an accepted input, once INSIDE each list class that holds such items (a server name inside an
+    extension list, a key share entry inside its vector): the test vectors hold most items on their own only, and a list engine
+    sizes, dispatches and falls back in ways the item class alone never shows"""
+    import inspect
+    from cryptoparser.common.base import ArrayBase
+    for vcls in sorted(all_subclasses(ArrayBase), key=lambda c: c.__module__ + '.' + c.__qualname__):
+        if not vcls.__module__.startswith('cryptoparser.') or inspect.isabstract(vcls):
+            continue
+        try:
+            item_class = vcls.get_param().item_class
+        except Exception:  # pylint: disable=broad-except
+            continue
+        try:
+            alts = list(item_class._get_variant_types())          # pylint: disable=protected-access
+        except Exception:  # pylint: disable=broad-except
+            alts = [item_class]
+        for alt in alts:
+            for seed in list(res.get(alt, []))[:2]:
+                try:
+                    item = alt.parse_exact_size(seed)
+                    wire = bytes(vcls([item]).compose())
+                    vcls.parse_exact_size(wire)
+                except Exception:  # pylint: disable=broad-except
+                    continue
+                if len(wire) <= 1200 and wire not in res.setdefault(vcls, []):
+                    res[vcls].append(wire)
 
 
 def all_subclasses(base):
